@@ -459,9 +459,8 @@ def analyse_full(fn, facts):
     flags_set = {}
     for labels, stmts_, falls, line in case_groups(sw):
         is_default = any(l[0] == "default" for l in labels)
-        cons = []
-        for s in stmts_:
-            cons += consumes_in(s, facts)
+        # the arm as a whole (an array loop written out by hand spans several statements: the start call and the loop)
+        cons = consumes_in({"k": "Block", "s": list(stmts_)}, facts)
         real = [c for c in cons if not c.kind.startswith("RAW:")]
         raw = [c for c in cons if c.kind.startswith("RAW:")]
         lname = "default" if is_default else ",".join(str(l[1]) for l in labels if l[0] == "case")
@@ -585,6 +584,48 @@ def positional_reader(fn, facts):
     env0 = Env(fn["body"])
     top = ir.stmts(fn["body"])
     loops = [s for s in top if s.get("k") in ("For", "While")]
+    cb_form = None
+    if not loops:
+        # the array walked by CdnsDecoder::read_array with a callback that keeps the position in a captured counter
+        for s_ in top:
+            u_ = unwrap(s_)
+            if isinstance(u_, dict) and u_.get("k") == "MCall" and decoder_call(u_) == "read_array":
+                lam = None
+                for a_ in u_.get("args", []):
+                    for x_ in ir.walk(a_):
+                        if x_.get("k") == "Lambda":
+                            lam = x_
+                            break
+                if lam is not None:
+                    cb_form = (u_, lam)
+    if cb_form is not None:
+        call, lam = cb_form
+        body = ir.stmts(lam.get("body"))
+        # the counter: a local declared before the call with initial value 0 that the callback increments
+        cands = []
+        for d_ in top:
+            if d_.get("k") == "Decl":
+                for v_ in d_.get("vars", []):
+                    if "n" in v_ and v_.get("init") is not None and const_value(v_["init"]) == 0:
+                        cands.append("l:%s#%s" % (v_["n"], v_["id"]))
+        steps = 0
+        counter = None
+        for x_ in ir.walk(lam.get("body")):
+            key_ = None
+            if x_.get("k") == "Un" and x_.get("op") in ("post++", "pre++"):
+                key_ = path_str(path(x_.get("e")) or ())
+            elif x_.get("k") == "Bin" and x_.get("op") == "+=" and const_value(x_.get("rhs")) == 1:
+                key_ = path_str(path(x_.get("lhs")) or ())
+            if key_ in cands:
+                counter = counter or key_
+                if key_ == counter:
+                    steps += 1
+        if counter is None:
+            return None, "read_array callback keeps no position counter"
+        rows = {}
+        ctx = {"counter": counter, "body": body}
+        info = {"loop": call, "counter": counter, "cond": ("T",), "break_ok": True, "break_why": "read_array() looks for the stop code itself", "steps": steps}
+        return _positional_rows(ctx, info, facts, env0)
     if len(loops) != 1:
         return None, "expected one loop over the array elements (found %d)" % len(loops)
     lp = loops[0]
@@ -607,6 +648,12 @@ def positional_reader(fn, facts):
             steps += 1
         elif u_.get("k") == "Bin" and u_.get("op") == "+=" and path_str(path(u_.get("lhs")) or ()) == counter and const_value(u_.get("rhs")) == 1:
             steps += 1
+    ctx = {"counter": counter, "indef": indef_keys[0], "body": body[1:] if bok else body}
+    return _positional_rows(ctx, {"loop": lp, "counter": counter, "cond": c, "break_ok": bok, "break_why": bwhy, "steps": steps}, facts, env0)
+
+
+def _positional_rows(ctx, info, facts, env0):
+    from . import minieval
     rows = {}
 
     def walk_pos(stmts_, env, out):
@@ -663,8 +710,11 @@ def positional_reader(fn, facts):
                         out.append(("other", "element consumed without being stored (%s)" % show(cns.call)[:40]))
         return None
     for p in range(4):
-        env = {counter: p, indef_keys[0]: 0}
+        env = {ctx["counter"]: p}
+        if ctx.get("indef"):
+            env[ctx["indef"]] = 0
         out = []
-        walk_pos(body[1:] if bok else body, env, out)
+        walk_pos(ctx["body"], env, out)
         rows[p] = out
-    return {"loop": lp, "counter": counter, "cond": c, "break_ok": bok, "break_why": bwhy, "steps": steps}, rows
+    return info, rows
+
